@@ -3,9 +3,11 @@
 mod c04;
 mod c05;
 mod c07;
+mod c08;
 mod c10;
 mod c11;
 mod corpus;
+mod fmt;
 mod c19;
 mod util;
 
@@ -22,6 +24,7 @@ fn main() {
         "c04" => c04::run(&mut out, tier, seed),
         "c05" => c05::run(&mut out, tier, seed),
         "c07" => c07::run(&mut out, tier, seed),
+        "c08" => c08::run(&mut out, tier, seed),
         "c10" => c10::run(&mut out, tier, seed),
         "c11" => {
             let scratch = args.get(5).cloned().unwrap_or_else(|| "/verif/.build/scratch".to_string());
@@ -31,6 +34,14 @@ fn main() {
             drop(out);
             c11::child(&args[5], outfile);
             return;
+        }
+        "fmt" => fmt::run(&mut out, tier, seed),
+        "fmtone" => {
+            let src = std::fs::read_to_string(&args[5]).expect("read");
+            println!("{}", fmt::verdict(&src).unwrap_or_else(|| "does-not-parse".to_string()));
+            if let Ok(t) = incan::format_source(&src) {
+                println!("-----\n{t}-----");
+            }
         }
         "c19" => c19::run(&mut out, tier, seed),
         _ => {
